@@ -19,6 +19,13 @@ const Istream &io_reader(IoBuf *b, size_t limit, bool cxx_transport);   /* reads
 int io_regions(IoBuf *b);
 bool io_region_is_text(IoBuf *b, int R);
 const Istream &io_reader_region(IoBuf *b, int R, size_t d, bool cxx_transport);
+/* handles for the EXPORTed (FILE* / std::stream) API on the same channel */
+#include <stdio.h>
+#include <iostream>
+FILE *io_file(IoBuf *b);
+std::ostream &io_ostream(IoBuf *b);
+std::istream &io_istream(IoBuf *b);
+void io_open_read(IoBuf *b, bool cxx_transport);      /* rewind for reading the whole content through io_file / io_istream */
 bool io_failed(IoBuf *b);             /* C++ transport: stream is in a failed state after the reads so far */
 size_t io_size(IoBuf *b);             /* bytes written so far (model: nominal size, text records count IO_REC_BYTES each) */
 size_t io_consumed(IoBuf *b);         /* bytes consumed by the reader so far */
